@@ -36,6 +36,7 @@ import (
 	registryState "github.com/oasisprotocol/oasis-core/go/consensus/cometbft/apps/registry/state"
 	schedulerState "github.com/oasisprotocol/oasis-core/go/consensus/cometbft/apps/scheduler/state"
 	stakingState "github.com/oasisprotocol/oasis-core/go/consensus/cometbft/apps/staking/state"
+	"github.com/oasisprotocol/oasis-core/go/consensus/cometbft/crypto"
 	genesis "github.com/oasisprotocol/oasis-core/go/genesis/api"
 	registry "github.com/oasisprotocol/oasis-core/go/registry/api"
 	scheduler "github.com/oasisprotocol/oasis-core/go/scheduler/api"
@@ -207,9 +208,8 @@ func (o *c14Oracle) capturePre(rep int, ctx *cmtapi.Context) {
 		fail("epoch", err)
 		return
 	}
-	if in.Entropy, err = bs.Beacon(ctx); err != nil && in.Epoch != 0 {
-		// No beacon before the first epoch transition.
-		in.Entropy = nil
+	if in.Entropy, err = bs.Beacon(ctx); err != nil {
+		in.Entropy = nil // no beacon before the first epoch transition
 	}
 	bp, err := bs.ConsensusParameters(ctx)
 	if err != nil {
@@ -364,6 +364,14 @@ func (o *c14Oracle) Init(s *Sim) *core.Violation {
 		core.Harnessf("c14: genesis validator sets differ")
 	}
 	o.modelAt[s.Height] = copyValMap(o.model)
+	// Nodes that the workload may add to non-anchor entities later can vote once elected.
+	for i := s.K.Gen.Anchors; i < len(s.W.Entities); i++ {
+		for j := 0; j < 2; j++ {
+			nk := c14ExtraNode(s.W, i, j)
+			pk := nk.Identity.ConsensusSigner.Public()
+			s.Keys[string(crypto.PublicKeyToCometBFT(&pk).Address())] = nk
+		}
+	}
 	return nil
 }
 
